@@ -17,6 +17,7 @@ Pade convergence in LinAlg (numerical).
 from __future__ import annotations
 
 import ast
+import copy
 import math
 from fractions import Fraction
 
@@ -42,8 +43,10 @@ def run(ctx):
     tensorid.run_identities(ctx, "O1/T7-helper-identities")
     o2(ctx)
     eigenalg.run(ctx, "O2/T7-eigen-solver-algebra", f"{TM}:eigen_sym33_non_unit")
+    trig_table(ctx)
     jvp_wiring(ctx, "O3/T5-custom-jvp-wiring")
     relative_differences(ctx)
+    log_taylor(ctx)
     ctx.trust("jax.custom_jvp protocol: rule(primals, tangents) -> (primal_out, tangent_out)")
     ctx.assume("eigenvalues of arguments of log/sqrt/power are positive")
 
@@ -124,6 +127,116 @@ def o2(ctx):
     rr = un.returns()
     ok = len(rr) == 1 and same(rr[0], "(evals, evecs)")
     ctx.decide(rule, ok, un, rr[0] if rr else None, construct="unit:returns-(values,vectors)", detail="(evals, evecs)", bad_detail=f"eigen_sym33_unit returns `{src(rr[0]) if rr else '?'}`")
+
+
+def _fold(fn_node, env):
+    """Exact rational constant folding of a straight-line scalar function (float literals read as written)."""
+    env = dict(env)
+
+    def fe(e):
+        if isinstance(e, ast.Constant) and isinstance(e.value, (int, float)) and not isinstance(e.value, bool):
+            return Fraction(repr(e.value)) if isinstance(e.value, float) else Fraction(e.value)
+        if isinstance(e, ast.Name):
+            return env[e.id]
+        if isinstance(e, ast.UnaryOp) and isinstance(e.op, ast.USub):
+            return -fe(e.operand)
+        if isinstance(e, ast.BinOp):
+            a, b = fe(e.left), fe(e.right)
+            if isinstance(e.op, ast.Add):
+                return a + b
+            if isinstance(e.op, ast.Sub):
+                return a - b
+            if isinstance(e.op, ast.Mult):
+                return a * b
+            if isinstance(e.op, ast.Div):
+                return a / b
+            if isinstance(e.op, ast.Pow) and isinstance(e.right, ast.Constant) and isinstance(e.right.value, int):
+                return a ** e.right.value
+        raise NotPolynomial(src(e))
+    for st in fn_node.body:
+        if isinstance(st, ast.Assign) and isinstance(st.targets[0], ast.Name):
+            env[st.targets[0].id] = fe(st.value)
+        elif isinstance(st, ast.Return):
+            return fe(st.value)
+        elif isinstance(st, ast.Expr) and isinstance(st.value, ast.Constant):
+            continue
+        else:
+            raise NotPolynomial(src(st)[:50])
+    raise NotPolynomial("no return")
+
+
+def trig_table(ctx):
+    """The rational approximant of cos(acos(x)/3) is a table of literals: fold it exactly at x = k/1000 and check the
+    defining identity 4c^3 - 3c = x on the branch c >= sqrt(3)/2 (the largest root of the depressed cubic)."""
+    rule = "O2/T7-trigonometric-root-table"
+    f = ctx.need(f"{TM}:cos_of_acos_divided_by_3")
+    x = f.params()[0]
+    worst, at, branch_ok = Fraction(0), None, True
+    try:
+        for k in range(0, 1001):
+            xv = Fraction(k, 1000)
+            c = _fold(f.node, {x: xv})
+            r = abs(4 * c ** 3 - 3 * c - xv)
+            if r > worst:
+                worst, at = r, xv
+            if c * c < Fraction(3, 4) - Fraction(1, 10 ** 13) or c > 1 + Fraction(1, 10 ** 13):
+                branch_ok = False
+        ok = worst <= Fraction(1, 10 ** 14) and branch_ok
+    except (NotPolynomial, KeyError, ZeroDivisionError) as ex:
+        ctx.undecided(rule, f, None, construct="cos(acos(x)/3):triple-angle-identity", detail=f"cannot fold the approximant: {ex}")
+        return
+    ctx.decide(rule, ok, f, None, construct="cos(acos(x)/3):triple-angle-identity",
+               detail=f"max |4c^3-3c-x| over x=k/1000 is {float(worst):.2e} (<= 1e-14), c in [sqrt(3)/2, 1]",
+               bad_detail=f"the literal coefficients do not approximate cos(acos(x)/3): |4c^3-3c-x| = {float(worst):.3e} at x = {at} "
+                          f"(1e-14 allowed){'' if branch_ok else '; value leaves [sqrt(3)/2, 1], i.e. the wrong root of the cubic'}")
+
+
+def log_taylor(ctx):
+    """_relative_log_difference_taylor is (2/(a+b)) * sum_k f^(2k)/(2k+1), f = (a-b)/(a+b): exact coefficient check."""
+    rule = "O3/T7-relative-differences"
+    sc = ctx.repo.find(f"{TM}:_relative_log_difference_taylor")
+    if sc is None:
+        return
+    ctx.touch(sc)
+    a, b = sc.params()
+    try:
+        # find the name bound to (a-b)/(a+b)
+        A = Algebra()
+        env = {}
+        fname = None
+        for st in sc.node.body:
+            if isinstance(st, ast.Assign) and isinstance(st.targets[0], ast.Name):
+                A2 = Algebra(env=env)
+                v = A2.lower(st.value)
+                if fname is None and A.equal(v, A.lower(ast.parse(f"({a}-{b})/({a}+{b})", mode="eval").body)):
+                    fname = st.targets[0].id
+                    env[fname] = A.atom("@f")
+                else:
+                    env[st.targets[0].id] = v
+        r = sc.returns()
+        got = Algebra(env=env).lower(r[0])
+        # got * (a+b) must be a polynomial in @f alone with coefficients 2/(2k+1) on even powers
+        q = A.norm(got * A.lower(ast.parse(f"{a}+{b}", mode="eval").body))
+        from .eigenalg import _as_poly
+        from optilint.expr import simplify
+        qp = _as_poly(simplify(q))
+        ok = qp is not None and fname is not None
+        order = 0
+        if ok:
+            for mono, c in qp.t.items():
+                if any(k != "@f" for k, _ in mono):
+                    ok = False
+                    break
+                e = mono[0][1] if mono else 0
+                order = max(order, e)
+                if e % 2 or c != Fraction(2, e + 1):
+                    ok = False
+            ok = ok and order >= 8 and len(qp.t) == order // 2 + 1
+    except (NotPolynomial, IndexError):
+        ok = None
+        order = "?"
+    ctx.decide(rule, ok, sc, None, construct="log:taylor-series-coefficients", detail=f"(a+b) * value == sum_(k<={order}/2) 2/(2k+1) f^(2k), f=(a-b)/(a+b)",
+               bad_detail="_relative_log_difference_taylor is not the truncated series 2/(a+b) * (1 + f^2/3 + f^4/5 + ...) of (log a - log b)/(a - b)")
 
 
 def _custom_jvp_functions(ctx, mname):
@@ -289,9 +402,8 @@ def relative_differences(ctx):
                 class Sub(ast.NodeTransformer):
                     def visit_Name(self, n):
                         if n.id in env_expr and n.id not in env:
-                            return self.visit(env_expr[n.id])
+                            return self.visit(copy.deepcopy(env_expr[n.id]))
                         return n
-                import copy
                 e2 = Sub().visit(copy.deepcopy(e))
                 return feval(e2, env)
             for (x1, x2) in pts:
@@ -329,6 +441,11 @@ def variants(repo):
         Variant("no derivative fallback", T, sub("        return np.where(x2 == x1, df(x1), relative_difference(x1, x2_safe))", "        return relative_difference(x1, x2_safe)"), "O3/T5-custom-jvp-wiring"),
         Variant("sqrt relative difference", T, sub("    return 1/(np.sqrt(lam1) + np.sqrt(lam2))", "    return 1/(np.sqrt(lam1) - np.sqrt(lam2))"), "O3/T7-relative-differences"),
         Variant("exp relative difference", T, sub("    return np.exp(lam2)*np.expm1(arg)/arg", "    return np.exp(lam1)*np.expm1(arg)/arg"), "O3/T7-relative-differences"),
+        Variant("pade numerator digit", T, sub("2.12714890259493060", "2.12714890259493960"), "O2/T7-trigonometric-root-table"),
+        Variant("pade denominator coefficient", T, sub("0.603976798217196003", "0.603976798217190003"), "O2/T7-trigonometric-root-table"),
+        Variant("taylor coefficient", T, sub("    seventh2 = 2.0 / 7.0", "    seventh2 = 2.0 / 6.0"), "O3/T7-relative-differences"),
+        Variant("taylor power", T, sub("seventh2 * frac4 * frac2 + ninth2 * frac4 * frac4", "seventh2 * frac4 * frac2 + ninth2 * frac4 * frac2"), "O3/T7-relative-differences"),
+        Variant("alpha-rename taylor", T, alpha_rename("_relative_log_difference_taylor"), None),
         Variant("tangent entry index slip", T, sub("    t12 = 0.5*(V[1].T@h@V[2] + V[2].T@h@V[1])", "    t12 = 0.5*(V[1].T@h@V[2] + V[2].T@h@V[0])"), "O3/T5-custom-jvp-wiring"),
         Variant("tangent rotated the wrong way", T, sub("    W = V.T@sym(Cdot)@V", "    W = V@sym(Cdot)@V.T"), "O3/T5-custom-jvp-wiring"),
         # equivalent program: h is symmetric and the assembled entries are symmetrised again, so sym() of the tangent is redundant
